@@ -7,7 +7,7 @@ configured) and none that belongs to a finished request; and end of input after 
 transition (crash point = EOF after any history) leads through the real main() exit path to exit status 0
 with the same number of heap bytes still allocated as after the empty history.  LeakSanitizer re-checks a
 sample of the states; real one-second timers and a 5000-client run go through the unmodified daemon."""
-import re, threading, time
+import os, re, threading, time
 from concurrent.futures import ThreadPoolExecutor
 from . import pcommon
 from .. import common, e1, e3, alpha, proto, psearch
@@ -123,6 +123,28 @@ def real_timers(run, b, n_hist):
             if bad:
                 run.violation('C10.real-timer', 'real 1 s timers, history %r: %s' % (h, bad), {'engine': 'E3', 'conf': conf, 'lines': h, 'wait_s': 1.7, 'stdout': out, 'stderr': err[-2000:]})
 
+def prefix_eof(run, b):
+    """End of input after every byte of a two-client history (inside a line, after a CR, at a line end): the daemon must still leave through its
+    clean exit path, with everything released."""
+    from .. import tpool
+    from . import c08
+    services = pcommon.G['login+drone']
+    conf = e1.conf_text(os.path.join(b, 'mods-wrapped'), services=services, timeout=30, rules=pcommon.rules_for(services))
+    data = (b'1 C 10.0.0.1 1111 10.9.9.9 6667\n1 N host1.example.net\n1 P :+x acct pass\n2 C 10.0.0.2 2222 10.9.9.9 6667\r\n2 H\n1 u ident1\n'
+            b'-1 X login.svc 1_1 :OK acct:7\n2 D\r\n1 n Nick1\n1 U user1 :Real Name\n3 C 10.0.0.3 3333 10.9.9.9 6667\n')
+    offs = list(range(len(data) + 1))
+    n = 0
+    with tpool.TracePool(conf, b, n=8) as tp:
+        for r in tp.imap(c08._prefix_job, [(0, data, offs[k:k + 12]) for k in range(0, len(offs), 12)], chunksize=1):
+            if 'harness_error' in r:
+                raise common.HarnessError(r['harness_error'])
+            n += r['n']
+            for off, status, err in r['bad']:
+                run.violation('C10.eof-exit', 'input ends after byte %d (...%r): no clean exit: %s %s' % (off, data[max(0, off - 30):off], status, (err.strip().splitlines() or [''])[-1][:120]),
+                              {'engine': 'E1-trace', 'conf': conf, 'bytes': data[:off].decode('latin-1'), 'then': 'eof', 'stderr': err}, dedup='prefix-eof|' + status)
+    return n
+
+
 def long_run(run, b, n):
     """Supplementary: thousands of clients through the unmodified daemon, ids reused; not what decides the property."""
     conf = e3.plain_conf(b, services=pcommon.G['login+drone'], timeout=30, rules=pcommon.rules_for(pcommon.G['login+drone']))
@@ -160,8 +182,14 @@ def main(tier):
         b = build.build()
         real_timers(run, b, 6)
         nl = long_run(run, b, 5000)
-        return {'eof_probes_real_exit_path': STATE['eof_probes'], 'lsan_probes': STATE['lsan_probes'], 'e3_real_timer_runs': STATE['e3_timer_runs'],
+        npre = prefix_eof(run, b)
+        return {'eof_after_every_byte_of_a_history': npre, 'eof_probes_real_exit_path': STATE['eof_probes'], 'lsan_probes': STATE['lsan_probes'], 'e3_real_timer_runs': STATE['e3_timer_runs'],
                 'e3_long_run_lines': nl}
     return pcommon.run_plan('C10', tier, plan(tier), ('C10.',), NEED, crash_is_violation=True, post=post(tier), extra_cov=extra)
 
-replay = pcommon.replay
+def replay(obj):
+    r = obj['replay']
+    if r.get('engine') == 'E1-trace':
+        from . import c08
+        return c08.replay(obj)
+    return pcommon.replay(obj)
